@@ -1424,3 +1424,381 @@ def _source_tie_with_collections_fns(self, which):
 
 
 Check.source_tie = _source_tie_with_collections_fns
+
+
+# --- appended (builder B26): translation tie "flowfor" for C04 / C05 (no-panic content: C07) — the for / end_for commands and
+# their helpers, duckscript_sdk/src/sdk/std/flowcontrol/forin/mod.rs (lib/gen/flowfor_gen.py -> coq/generated/GenFlowforFn.v,
+# proofs coq/theories/FlowforGenTie.v + FlowforEmbed.v over FlowforLib.v, wrappers coq/props/SrcFlowfor.v).  Same scheme as
+# COLLECTIONS_FN_TIES: the tie key's own flag (gen_flowfor_understood) says that the struct declarations, the callee
+# signatures and the serialise / deserialise inverse check were understood; every function has its OWN flag, a function the
+# translator does not understand (or that calls one it does not understand) gets a stub, its theorems (stated under the flags of
+# the functions they speak about) hold vacuously, and source_tie("flowfor") then reports exactly that function's tie as inactive
+# (NOTE + evidence) and does not count its theorems as discharged.  FLOWFOR_MODEL_THMS do not depend on the generated file (the
+# g-model of FlowforLib.v against Flow.v): they are checked whether or not the translation tie is active on this tree.
+_FF = "duckscript_sdk/src/sdk/std/flowcontrol/forin/mod.rs::"
+FLOWFOR_FN_TIES = [
+    ("gen_store_call_info_understood", "store_call_info", _FF + "store_call_info", ["Src_flowfor_store", "Src_flowfor_flow_store"]),
+    ("gen_get_next_iteration_understood", "get_next_iteration", _FF + "get_next_iteration",
+     ["Src_flowfor_next", "Src_flowfor_flow_next"]),
+    ("gen_get_or_create_forin_meta_info_for_line_understood", "get_or_create_forin_meta_info_for_line",
+     _FF + "get_or_create_forin_meta_info_for_line", ["Src_flowfor_meta_info", "Src_flowfor_flow_meta_info"]),
+    ("gen_pop_call_info_for_line_understood", "pop_call_info_for_line", _FF + "pop_call_info_for_line",
+     ["Src_flowfor_pop", "Src_flowfor_flow_pop"]),
+    ("gen_forin_run_understood", "forin_run", _FF + "ForInCommand::run",
+     ["Src_flowfor_run_for", "Src_flowfor_flow_run_for", "Src_flowfor_flow_run_for_invalid"]),
+    ("gen_endforin_run_understood", "endforin_run", _FF + "EndForInCommand::run",
+     ["Src_flowfor_run_endfor", "Src_flowfor_flow_run_endfor"]),
+]
+FLOWFOR_MODEL_THMS = ["Src_flowfor_model_pop_loop", "Src_flowfor_model_pop", "Src_flowfor_model_store", "Src_flowfor_model_next",
+                      "Src_flowfor_model_meta_info", "Src_flowfor_model_step_for", "Src_flowfor_model_step_for_invalid",
+                      "Src_flowfor_model_step_endfor", "Src_flowfor_model_rest_for", "Src_flowfor_model_rest_endfor",
+                      "Src_flowfor_model_determines"]
+Check.SRC_TIES.update({
+    "flowfor": ("GenFlowforFn.v", "gen_flowfor_understood", "props/SrcFlowfor.vo", "DSP.SrcFlowfor", [],
+                "duckscript_sdk/src/sdk/std/flowcontrol/forin/mod.rs (store_call_info, get_next_iteration, "
+                "get_or_create_forin_meta_info_for_line, pop_call_info_for_line, ForInCommand::run, EndForInCommand::run)"),
+})
+
+
+def _flowfor_register():
+    base = dict(getattr(Check, "SRC_TIES_BASE", {}))
+    base["flowfor"] = []
+    Check.SRC_TIES_BASE = base
+    if "flowfor" not in getattr(Check, "SRC_TIES_PARTIAL", ()):
+        Check.SRC_TIES_PARTIAL = tuple(getattr(Check, "SRC_TIES_PARTIAL", ())) + ("flowfor",)
+
+
+_flowfor_register()
+Check.SRC_TIES["flowfor"][4].extend(FLOWFOR_MODEL_THMS)
+Check.SRC_TIES["flowfor"][4].extend(t for _f, _n, _w, _ts in FLOWFOR_FN_TIES for t in _ts)
+_source_tie_before_flowfor_fns = Check.source_tie
+
+
+def _source_tie_with_flowfor_fns(self, which):
+    if which == "flowfor":
+        _flowfor_register()       # robust against a later block that re-assigns the two class attributes
+    ok = _source_tie_before_flowfor_fns(self, which)
+    if which != "flowfor":
+        return ok
+    try:
+        text = open(os.path.join(ROOT, "coq", "generated", "GenFlowforFn.v")).read()
+    except OSError:
+        text = ""
+    info = self.coverage.setdefault("source_translation", {})
+    fns = {}
+    for flag, fn, what, thms in FLOWFOR_FN_TIES:
+        if re.search(r"Definition %s : bool := true\." % flag, text) is not None:
+            fns[fn] = {"active": True, "theorems": thms}
+            continue
+        m = re.search(r"\(\* NOT UNDERSTOOD %s: (.*?) \*\)" % re.escape(fn), text, re.S)
+        why = m.group(1) if m else "generated file missing"
+        fns[fn] = {"active": False, "reason": why}
+        names = ["DSP.SrcFlowfor.%s" % t for t in thms]
+        self.obligations[:] = [o for o in self.obligations if o not in names]
+        self.discharged[:] = [o for o in self.discharged if o not in names]
+        if isinstance(info.get("flowfor", {}).get("theorems"), list):
+            info["flowfor"]["theorems"] = [t for t in info["flowfor"]["theorems"] if t not in thms]
+        if info.get("flowfor", {}).get("active"):     # (when the key's own flag is false the base NOTE has been printed already)
+            print("NOTE: property=%s translation tie for %s is inactive on this tree (translator: %s); "
+                  "the correspondence run is the only tie for it in this run" % (self.prop, what, why), flush=True)
+    info["flowfor_fns"] = {"file": "coq/generated/GenFlowforFn.v", "functions": fns, "model_theorems": FLOWFOR_MODEL_THMS,
+                           "meaning": "each listed function of forin/mod.rs: its mechanical translation from the current source "
+                                      "equals GVal of the g-model (FlowforLib.v: the Rust over the typed sub-states, WITH "
+                                      "line_context_name) for all inputs — so no `arguments[i]` / `list[iteration]` panic arm and no "
+                                      "fuel exhaustion of the pop loop is reachable — and, on the states Flow.v describes (every "
+                                      "call-info entry carries the current line context name), equals Flow.for_meta_info / "
+                                      "for_pop_top / for_pop / for_push / get_next_iteration / step_for / step_endfor (one flag per "
+                                      "function; model_theorems: g-model = Flow.v, independent of the generated file)"}
+    return ok
+
+
+Check.source_tie = _source_tie_with_flowfor_fns
+
+
+# --- appended (builder B25): translation tie "flowwhile" for C04 / C05 — the while / end_while commands and their helpers
+# (duckscript_sdk/src/sdk/std/flowcontrol/while_mod/mod.rs: create_while_meta_info_for_line, get_or_create_while_meta_info_for_line,
+# pop_call_info_for_line, store_call_info, WhileCommand::run, EndWhileCommand::run — the (de)serialisers are executed by the
+# translator — and flowcontrol/mod.rs::get_line_key; lib/gen/flowwhile_gen.py -> coq/generated/GenFlowwhileFn.v, proofs
+# coq/theories/FlowwhileGenTie.v, wrappers coq/props/SrcFlowwhile.v).  Same scheme as PARSER_REST_TIES / VAR_FN_TIES: the tie key's own
+# flag (gen_flowwhile_understood) only says the generator ran; every generated function has its OWN flag in GenFlowwhileFn.v, a function
+# the translator does not understand any more gets a stub, its theorems (stated under `flag = true`) hold vacuously, and
+# source_tie("flowwhile") then reports exactly that tie as inactive (NOTE + evidence) and does not count its theorems as discharged.
+# A theorem that speaks about several translated functions lists all their flags.
+_FW = "duckscript_sdk/src/sdk/std/flowcontrol/"
+_FW_META = ("gen_get_or_create_while_meta_info_for_line_understood", "gen_get_line_key_understood",
+            "gen_create_while_meta_info_for_line_understood")
+FLOWWHILE_FN_TIES = [
+    (("gen_get_line_key_understood",), _FW + "mod.rs::get_line_key", ["Src_flowwhile_line_key"]),
+    (("gen_create_while_meta_info_for_line_understood",), _FW + "while_mod/mod.rs::create_while_meta_info_for_line", ["Src_flowwhile_create"]),
+    (_FW_META, _FW + "while_mod/mod.rs::get_or_create_while_meta_info_for_line", ["Src_flowwhile_meta_info"]),
+    (("gen_pop_call_info_for_line_understood",), _FW + "while_mod/mod.rs::pop_call_info_for_line",
+     ["Src_flowwhile_pop_all", "Src_flowwhile_pop"]),
+    (("gen_store_call_info_understood",), _FW + "while_mod/mod.rs::store_call_info", ["Src_flowwhile_store"]),
+    (("gen_while_run_understood", "gen_store_call_info_understood") + _FW_META, _FW + "while_mod/mod.rs::WhileCommand::run",
+     ["Src_flowwhile_while_run", "Src_flowwhile_while_run_cond"]),
+    (("gen_endwhile_run_understood", "gen_pop_call_info_for_line_understood", "gen_store_call_info_understood"),
+     _FW + "while_mod/mod.rs::EndWhileCommand::run", ["Src_flowwhile_endwhile_run", "Src_flowwhile_endwhile_all"]),
+]
+Check.SRC_TIES.update({
+    "flowwhile": ("GenFlowwhileFn.v", "gen_flowwhile_understood", "props/SrcFlowwhile.vo", "DSP.SrcFlowwhile", ["Src_flowwhile_line_key_inj"],
+                  "the while / end_while commands (sdk/std/flowcontrol/while_mod/mod.rs: fn run of both commands and their helpers)"),
+})
+Check.SRC_TIES_BASE = dict(getattr(Check, "SRC_TIES_BASE", {}))
+Check.SRC_TIES_BASE["flowwhile"] = list(Check.SRC_TIES["flowwhile"][4])
+Check.SRC_TIES_PARTIAL = tuple(getattr(Check, "SRC_TIES_PARTIAL", ())) + ("flowwhile",)
+Check.SRC_TIES["flowwhile"][4].extend(t for _f, _w, _ts in FLOWWHILE_FN_TIES for t in _ts)
+_source_tie_before_flowwhile_fns = Check.source_tie
+
+
+def _source_tie_with_flowwhile_fns(self, which):
+    ok = _source_tie_before_flowwhile_fns(self, which)
+    if which != "flowwhile":
+        return ok
+    try:
+        text = open(os.path.join(ROOT, "coq", "generated", "GenFlowwhileFn.v")).read()
+    except OSError:
+        text = ""
+    info = self.coverage.setdefault("source_translation", {})
+
+    def on(flag):
+        return re.search(r"Definition %s : bool := true\." % flag, text) is not None
+
+    def why_not(flags):
+        out = []
+        for f in flags:
+            if on(f):
+                continue
+            short = re.sub(r"^gen_|_understood$", "", f)
+            m = re.search(r"\(\* NOT UNDERSTOOD: %s: (.*?) \*\)" % re.escape(short), text, re.S)
+            out.append("%s: %s" % (short, " ".join(m.group(1).split())[:300] if m else "generated file missing"))
+        return "; ".join(out)
+    fns = {}
+    for flags, what, thms in FLOWWHILE_FN_TIES:
+        if all(on(f) for f in flags):
+            fns[what] = {"active": True, "theorems": thms}
+            continue
+        why = why_not(flags)
+        fns[what] = {"active": False, "reason": why}
+        names = ["DSP.SrcFlowwhile.%s" % t for t in thms]
+        self.obligations[:] = [o for o in self.obligations if o not in names]
+        self.discharged[:] = [o for o in self.discharged if o not in names]
+        if isinstance(info.get("flowwhile", {}).get("theorems"), list):
+            info["flowwhile"]["theorems"] = [t for t in info["flowwhile"]["theorems"] if t not in thms]
+        print("NOTE: property=%s translation tie for %s is inactive on this tree (translator: %s); "
+              "the correspondence run is the only tie for it in this run" % (self.prop, what, why), flush=True)
+    info["flowwhile_fns"] = {"file": "coq/generated/GenFlowwhileFn.v", "functions": fns,
+                             "meaning": "each listed function: the hand model (Flow.v: create_loop_meta gen_while_tables, while_meta_info, "
+                                        "wh_pop, wh_push, step_while, step_endwhile; FlowFnC.v: cstep_while) equals the mechanical "
+                                        "translation of the current source on the typed states wst_of ctx f, for every context name ctx "
+                                        "(the model omits line_context_name); result kind / goto target / flow state are compared, "
+                                        "message texts are not (one flag per generated function)"}
+    return ok
+
+
+Check.source_tie = _source_tie_with_flowwhile_fns
+
+
+# --- appended (builder B27): translation tie "flowfn" for C04 / C05 (no-panic content: C07) — the function / call / end_function /
+# return commands (duckscript_sdk/src/sdk/std/flowcontrol/function/mod.rs: push_to_call_stack, pop_from_call_stack, run_call,
+# FunctionCommand::run, EndFunctionCommand::run, ReturnCommand::run, with store_fn_info_in_state / get_fn_info_from_state inlined —
+# the (de)serialisers are executed against each other by the translator; lib/gen/flowfn_gen.py -> coq/generated/GenFlowfnFn.v, proofs
+# coq/theories/FlowfnGenTie.v, wrappers coq/props/SrcFlowfn.v).  Same scheme as PARSER_REST_TIES / VAR_FN_TIES: the tie key's own flag
+# (gen_flowfn_understood) only says the generator ran; every generated function has its OWN flag in GenFlowfnFn.v, a function the
+# translator does not understand any more gets a stub, its theorems (stated under `flag = true`) hold vacuously, and
+# source_tie("flowfn") then reports exactly that tie as inactive (NOTE + evidence) and does not count its theorems as discharged.
+# A theorem that speaks about two translated functions lists both flags.
+_FFN = "duckscript_sdk/src/sdk/std/flowcontrol/function/mod.rs::"
+FLOWFN_FN_TIES = [
+    (("gen_push_to_call_stack_understood",), _FFN + "push_to_call_stack", ["Src_flowfn_push"]),
+    (("gen_pop_from_call_stack_understood",), _FFN + "pop_from_call_stack", ["Src_flowfn_pop"]),
+    (("gen_push_to_call_stack_understood", "gen_pop_from_call_stack_understood"),
+     _FFN + "pop_from_call_stack after push_to_call_stack (mutually inverse)", ["Src_flowfn_pop_push"]),
+    (("gen_function_run_understood",), _FFN + "FunctionCommand::run",
+     ["Src_flowfn_function", "Src_flowfn_function_step", "Src_flowfn_function_no_panic"]),
+    (("gen_run_call_understood",), _FFN + "run_call", ["Src_flowfn_run_call", "Src_flowfn_call_step", "Src_flowfn_run_call_no_panic"]),
+    (("gen_end_function_run_understood",), _FFN + "EndFunctionCommand::run",
+     ["Src_flowfn_end_function", "Src_flowfn_end_function_no_panic"]),
+    (("gen_return_run_understood",), _FFN + "ReturnCommand::run",
+     ["Src_flowfn_return", "Src_flowfn_return_step", "Src_flowfn_return_no_panic"]),
+]
+Check.SRC_TIES.update({
+    "flowfn": ("GenFlowfnFn.v", "gen_flowfn_understood", "props/SrcFlowfn.vo", "DSP.SrcFlowfn", [],
+               "the function / call / end_function / return commands (sdk/std/flowcontrol/function/mod.rs)"),
+})
+
+
+def _flowfn_register():
+    base = dict(getattr(Check, "SRC_TIES_BASE", {}))
+    base["flowfn"] = []
+    Check.SRC_TIES_BASE = base
+    if "flowfn" not in getattr(Check, "SRC_TIES_PARTIAL", ()):
+        Check.SRC_TIES_PARTIAL = tuple(getattr(Check, "SRC_TIES_PARTIAL", ())) + ("flowfn",)
+
+
+_flowfn_register()
+Check.SRC_TIES["flowfn"][4].extend(t for _f, _w, _ts in FLOWFN_FN_TIES for t in _ts)
+_source_tie_before_flowfn_fns = Check.source_tie
+
+
+def _source_tie_with_flowfn_fns(self, which):
+    if which == "flowfn":
+        _flowfn_register()       # robust against a later block that re-assigns the two class attributes
+    ok = _source_tie_before_flowfn_fns(self, which)
+    if which != "flowfn":
+        return ok
+    try:
+        text = open(os.path.join(ROOT, "coq", "generated", "GenFlowfnFn.v")).read()
+    except OSError:
+        text = ""
+    info = self.coverage.setdefault("source_translation", {})
+
+    def on(flag):
+        return re.search(r"Definition %s : bool := true\." % flag, text) is not None
+
+    def why_not(flags):
+        out = []
+        for f in flags:
+            if on(f):
+                continue
+            short = re.sub(r"^gen_|_understood$", "", f)
+            m = re.search(r"\(\* NOT UNDERSTOOD %s: (.*?) \*\)" % re.escape(short), text, re.S)
+            out.append("%s: %s" % (short, " ".join(m.group(1).split())[:300] if m else "generated file missing"))
+        return "; ".join(out)
+    fns = {}
+    for flags, what, thms in FLOWFN_FN_TIES:
+        if all(on(f) for f in flags):
+            fns[what] = {"active": True, "theorems": thms}
+            continue
+        why = why_not(flags)
+        fns[what] = {"active": False, "reason": why}
+        names = ["DSP.SrcFlowfn.%s" % t for t in thms]
+        self.obligations[:] = [o for o in self.obligations if o not in names]
+        self.discharged[:] = [o for o in self.discharged if o not in names]
+        if isinstance(info.get("flowfn", {}).get("theorems"), list):
+            info["flowfn"]["theorems"] = [t for t in info["flowfn"]["theorems"] if t not in thms]
+        print("NOTE: property=%s translation tie for %s is inactive on this tree (translator: %s); "
+              "the correspondence run is the only tie for it in this run" % (self.prop, what, why), flush=True)
+    info["flowfn_fns"] = {"file": "coq/generated/GenFlowfnFn.v", "functions": fns,
+                          "meaning": "each listed function: the hand model (FlowFn.v: step_function on the decoded `fn [<scope>] name`, "
+                                     "step_call = command lookup + run_call + the runner's update_output, step_endfn, step_return on the "
+                                     "expanded argument; the typed call stack x_push / x_pop) equals the mechanical translation of the "
+                                     "current source on the states xlift lcn g, for every line context name lcn (the model omits "
+                                     "line_context_name; run_call: at most nine arguments, the model's one-digit index names); the "
+                                     "call-stack / meta-info (de)serialisers are executed against each other, not assumed; the "
+                                     "`context.arguments[i]` RPanic arms are dead (one flag per generated function)"}
+    return ok
+
+
+Check.source_tie = _source_tie_with_flowfn_fns
+
+
+# --- appended (builder B24): translation tie "flowif" for C04 / C05 — the if / elseif / else / end_if commands of
+# duckscript_sdk/src/sdk/std/flowcontrol/ifelse/mod.rs (get_or_create_if_meta_info_for_line, create_if_meta_info_for_line,
+# pop_call_info_for_line, store_call_info, the four `run` functions) plus fn get_line_key of flowcontrol/mod.rs and fn set_command
+# of end/mod.rs (lib/gen/flowif_gen.py -> coq/generated/GenFlowifFn.v, proofs coq/theories/FlowifGenTie.v, wrappers
+# coq/props/SrcFlowif.v).  Same scheme as PARSER_REST_TIES / VAR_FN_TIES: the tie key's own flag (gen_flowif_understood) only says
+# the generator ran; every generated function has its OWN flag in GenFlowifFn.v, a function the translator does not understand any
+# more (or that calls one it does not understand, or whose serialise / deserialise pair is no longer accepted as mutually
+# inverse) gets a stub, its theorems (stated under `flag = true`) hold vacuously, and source_tie("flowif") then reports exactly
+# that tie as inactive (NOTE + evidence) and does not count its theorems as discharged.
+_FLOWIF_RS = "duckscript_sdk/src/sdk/std/flowcontrol/ifelse/mod.rs::"
+FLOWIF_FN_TIES = [
+    (("gen_get_line_key_understood",), "duckscript_sdk/src/sdk/std/flowcontrol/mod.rs::get_line_key", ["Src_flowif_line_key"]),
+    (("gen_end_set_command_understood",), "duckscript_sdk/src/sdk/std/flowcontrol/end/mod.rs::set_command", ["Src_flowif_end_set"]),
+    (("gen_create_if_meta_info_for_line_understood",), _FLOWIF_RS + "create_if_meta_info_for_line", ["Src_flowif_create_if_meta"]),
+    (("gen_get_or_create_if_meta_info_for_line_understood",), _FLOWIF_RS + "get_or_create_if_meta_info_for_line",
+     ["Src_flowif_if_meta_info"]),
+    (("gen_store_call_info_understood",), _FLOWIF_RS + "store_call_info", ["Src_flowif_if_push"]),
+    (("gen_pop_call_info_for_line_understood",), _FLOWIF_RS + "pop_call_info_for_line", ["Src_flowif_if_pop"]),
+    (("gen_if_run_understood",), _FLOWIF_RS + "IfCommand::run", ["Src_flowif_step_if", "Src_flowif_step_if_noargs", "Src_flowif_cstep_if"]),
+    (("gen_elseif_run_understood",), _FLOWIF_RS + "ElseIfCommand::run",
+     ["Src_flowif_step_elseif", "Src_flowif_step_elseif_noargs", "Src_flowif_cstep_elseif"]),
+    (("gen_else_run_understood",), _FLOWIF_RS + "ElseCommand::run", ["Src_flowif_step_else"]),
+    (("gen_endif_run_understood",), _FLOWIF_RS + "EndIfCommand::run", ["Src_flowif_endif"]),
+]
+Check.SRC_TIES.update({
+    "flowif": ("GenFlowifFn.v", "gen_flowif_understood", "props/SrcFlowif.vo", "DSP.SrcFlowif", ["Src_flowif_emb_inj"],
+               "the if / elseif / else / end_if commands (sdk/std/flowcontrol/ifelse/mod.rs; get_line_key; end::set_command)"),
+})
+
+
+def _flowif_register():
+    base = dict(getattr(Check, "SRC_TIES_BASE", {}))
+    base["flowif"] = ["Src_flowif_emb_inj"]
+    Check.SRC_TIES_BASE = base
+    if "flowif" not in getattr(Check, "SRC_TIES_PARTIAL", ()):
+        Check.SRC_TIES_PARTIAL = tuple(getattr(Check, "SRC_TIES_PARTIAL", ())) + ("flowif",)
+
+
+_flowif_register()
+Check.SRC_TIES["flowif"][4].extend(t for _f, _w, _ts in FLOWIF_FN_TIES for t in _ts)
+_source_tie_before_flowif_fns = Check.source_tie
+
+
+def _source_tie_with_flowif_fns(self, which):
+    if which == "flowif":
+        _flowif_register()       # robust against a later block that re-assigns the two class attributes
+    ok = _source_tie_before_flowif_fns(self, which)
+    if which != "flowif":
+        return ok
+    try:
+        text = open(os.path.join(ROOT, "coq", "generated", "GenFlowifFn.v")).read()
+    except OSError:
+        text = ""
+    info = self.coverage.setdefault("source_translation", {})
+
+    def on(flag):
+        return re.search(r"Definition %s : bool := true\." % flag, text) is not None
+
+    def why_not(flags):
+        out = []
+        for f in flags:
+            if on(f):
+                continue
+            short = re.sub(r"^gen_|_understood$", "", f)
+            m = re.search(r"\(\* NOT UNDERSTOOD %s: (.*?) \*\)" % re.escape(short), text, re.S)
+            out.append("%s: %s" % (short, " ".join(m.group(1).split())[:300] if m else "generated file missing"))
+        return "; ".join(out)
+    fns = {}
+    for flags, what, thms in FLOWIF_FN_TIES:
+        if all(on(f) for f in flags):
+            fns[what] = {"active": True, "theorems": thms}
+            continue
+        why = why_not(flags)
+        fns[what] = {"active": False, "reason": why}
+        names = ["DSP.SrcFlowif.%s" % t for t in thms]
+        self.obligations[:] = [o for o in self.obligations if o not in names]
+        self.discharged[:] = [o for o in self.discharged if o not in names]
+        if isinstance(info.get("flowif", {}).get("theorems"), list):
+            info["flowif"]["theorems"] = [t for t in info["flowif"]["theorems"] if t not in thms]
+        print("NOTE: property=%s translation tie for %s is inactive on this tree (translator: %s); "
+              "the correspondence run is the only tie for it in this run" % (self.prop, what, why), flush=True)
+    info["flowif_fns"] = {"file": "coq/generated/GenFlowifFn.v", "functions": fns,
+                          "meaning": "each listed function: the hand model (Flow.v: create_if_meta, if_meta_info, if_pop, if_push, step_if, "
+                                     "step_elseif, step_else, the end-if / wrong-shape arms of step; FlowFnC.v: cstep_if, cstep_elseif) equals "
+                                     "the mechanical translation of the current source on the image of the injective embedding emb lcn / "
+                                     "embC lcn of model states, for every constant line context name lcn (the model omits "
+                                     "line_context_name: every CallInfo carries lcn, the cache / end-table keys are `lcn::line`); the "
+                                     "serialise / deserialise pairs are checked on the source to be mutually inverse field by field before "
+                                     "the typed view of the state is used; the loop of pop_call_info_for_line never runs out of fuel "
+                                     "(one flag per generated function)"}
+    return ok
+
+
+Check.source_tie = _source_tie_with_flowif_fns
+
+
+# --- appended (builder B25, second part): utils/pckg.rs::concat — the function the translations above spell pckg_concat at its call
+# sites — is translated too (gen_pckg_concat, own flag) and proved equal to FlowwhileGenLib.pckg_concat.
+FLOWWHILE_FN_TIES.insert(0, (("gen_pckg_concat_understood",), "duckscript_sdk/src/utils/pckg.rs::concat", ["Src_flowwhile_pckg_concat"]))
+Check.SRC_TIES["flowwhile"][4].append("Src_flowwhile_pckg_concat")
+
+
+# --- appended (builder B27, second part): three more theorems of props/SrcFlowfn.v for the tie "flowfn" — the call made under a
+# condition-position evaluation (FlowFnC.step_call_eval, the machine of C05_sim_cond) is run_call (flag of run_call), and the
+# association-list scope push / pop the translations of function/mod.rs are configured with ARE Scope.v's m_push / m_pop (the
+# functions the tie "var" proves equal to utils/scope.rs) read through list_to_map — hand-model theorems, no flag: checked
+# whenever source_tie("flowfn") runs.
+FLOWFN_FN_TIES.append((("gen_run_call_understood",), _FFN + "run_call under a condition-position evaluation (FlowFnC.step_call_eval)",
+                       ["Src_flowfn_call_eval_step"]))
+Check.SRC_TIES["flowfn"][4].extend(["Src_flowfn_call_eval_step", "Src_flowfn_scope_push", "Src_flowfn_scope_pop"])
